@@ -98,6 +98,18 @@ pub fn mutations(name: &str, m: &[u8], typed: bool, thorough: bool) -> Vec<(Stri
             out.push((cn.to_string(), b));
         }
     }
+    // a buffered extended-protocol message only has an effect once a Sync flushes the batch
+    if ["P", "B", "D", "E", "C"].contains(&name) {
+        let flushed: Vec<(String, Vec<u8>)> = out
+            .iter()
+            .map(|(mn, b)| {
+                let mut v = b.clone();
+                v.extend(wire::sync());
+                (format!("{}+S", mn), v)
+            })
+            .collect();
+        out.extend(flushed);
+    }
     out
 }
 
@@ -241,7 +253,9 @@ pub fn oracle(sc: &Scenario, out: &Outcome) -> Vec<Violation> {
             }
             if let Some(t) = msg_tag(msg) {
                 if last == Some(0) && t.c == 1 {
-                    let r = dirty_reasons(st, false);
+                    // with statement caching on, the pooler's own PGCAT_n statements stay on the connection by design
+                    let caching = sc.name.split_whitespace().find_map(|w| w.strip_prefix("cache=")).map(|c| c != "0").unwrap_or(false);
+                    let r = dirty_reasons(st, caching);
                     if !r.is_empty() {
                         vs.push(v("C11.dirty-handover", format!("C11.dirty-handover:{}:{}", r.join("+"), ctx), format!("canary got conn {} at seq {} in state {:?}", conn, seq, r)));
                     }
@@ -311,7 +325,7 @@ pub fn build(tier: &str) -> SimCheck {
         oracle: Box::new(oracle),
         bound: if thorough { 1 } else { 0 },
         limits: Limits { max_wall_s: if thorough { 2400.0 } else { 55.0 }, ..Default::default() },
-        rule: "scenario = pool (single primary / single replica, pool_size 1) x attacker protocol state (pre-startup, awaiting password, idle, in transaction, mid extended batch, COPY IN, session-mode held) x 16 message templates x mutations (truncation at byte offsets, 8 length-field values, NULs stripped, counts -1/32767, parameter length -1/huge, unknown type bytes, other startup codes, well-formed but out of order) x attacker stays connected or leaves; a canary shares the pool and runs a transaction during and after; then a pooler-state probe".into(),
+        rule: "scenario = pool (single primary / single replica, pool_size 1) x attacker protocol state (pre-startup, awaiting password, idle, in transaction, mid extended batch, COPY IN, session-mode held) x 16 message templates x mutations (truncation at byte offsets, 8 length-field values, NULs stripped, counts -1/32767, parameter length -1/huge, unknown type bytes, other startup codes, well-formed but out of order; every mutation of Parse/Bind/Describe/Execute/Close also followed by a Sync that flushes the batch) x attacker stays connected or leaves; a canary shares the pool and runs a transaction during and after; then a pooler-state probe".into(),
         assumptions: vec!["length fields capped at 1 MiB (memory exhaustion not decided)".into(), "a panic confined to the attacker's own task is a disconnect, allowed by the property".into()],
     }
 }
